@@ -97,9 +97,12 @@ func tsHasPayload(body []byte, needle []byte) bool {
 }
 
 // ---------------------------------------------------------------------------
-// WebSocket HTTP-TS consumer
+// HTTP-TS consumer, plain or over WebSocket.  The read buffer is larger than anything lal writes at once and the
+// in-memory connection never merges writes, so every Read returns one whole Write of lal: a snapshot of the body
+// always ends where lal ended a write (whole packets, whole frames) although the reader runs asynchronously.
 
 type wsTsConsumer struct {
+	ws   bool
 	conn *memconn.Conn
 	mu   sync.Mutex
 	cond *sync.Cond
@@ -108,16 +111,16 @@ type wsTsConsumer struct {
 	eof  bool
 }
 
-func newWsTsSub(s *inproc.Server, stream string) *wsTsConsumer {
-	conn := s.HttpSub("/live/"+stream+".ts", true)
-	c := &wsTsConsumer{conn: conn}
+func newTsSub(s *inproc.Server, stream string, ws bool) *wsTsConsumer {
+	conn := s.HttpSub("/live/"+stream+".ts", ws)
+	c := &wsTsConsumer{conn: conn, ws: ws}
 	c.cond = sync.NewCond(&c.mu)
 	conn.WaitPeerIdle(lalclient.IdleTimeout)
 	go func() {
 		var hdr []byte
 		hdrDone := false
 		var wp wsref.Parser
-		buf := make([]byte, 64*1024)
+		buf := make([]byte, 2<<20)
 		fail := func(err error) {
 			c.mu.Lock()
 			if c.err == nil {
@@ -143,6 +146,13 @@ func newWsTsSub(s *inproc.Server, stream string) *wsTsConsumer {
 					}
 					data = hdr[i+4:]
 					hdrDone = true
+				}
+				if !c.ws {
+					c.mu.Lock()
+					c.body = append(c.body, data...)
+					c.cond.Broadcast()
+					c.mu.Unlock()
+					data = nil
 				}
 				frames, werr := wp.Feed(data)
 				if werr != nil {
@@ -505,11 +515,10 @@ func clipStr(s string, n int) string {
 
 type subT struct {
 	kind string
-	rc   *lalclient.Consumer   // rtmp | flv | wsflv
-	ts   *lalclient.TsConsumer // ts
-	wts  *wsTsConsumer         // wsts
-	rt   *rtspSub              // rtsp
-	hl   *hlsSub               // hls
+	rc   *lalclient.Consumer // rtmp | flv | wsflv
+	wts  *wsTsConsumer       // ts | wsts
+	rt   *rtspSub            // rtsp
+	hl   *hlsSub             // hls
 
 	// snapshot taken right before the tail is published
 	hadVideo     bool // TS kinds: a video PES had arrived; RTSP: playing with a video track of the stream's codec
@@ -529,9 +538,9 @@ func joinSub(e *env, kind string) (*subT, *pbt.Violation) {
 	case "wsflv":
 		sb.rc = lalclient.NewFlvSub(s, "live", e.stream, true)
 	case "ts":
-		sb.ts = lalclient.NewTsSub(s, "live", e.stream)
+		sb.wts = newTsSub(s, e.stream, false)
 	case "wsts":
-		sb.wts = newWsTsSub(s, e.stream)
+		sb.wts = newTsSub(s, e.stream, true)
 	case "rtsp":
 		sb.rt = newRtspSub(s, e.stream)
 	case "hls":
@@ -567,10 +576,7 @@ func (sb *subT) syncBytes() int64 {
 }
 
 func (sb *subT) tsBody() []byte {
-	switch {
-	case sb.ts != nil:
-		return sb.ts.Body()
-	case sb.wts != nil:
+	if sb.wts != nil {
 		return sb.wts.Body()
 	}
 	return nil
@@ -579,7 +585,7 @@ func (sb *subT) tsBody() []byte {
 // beforeTail records what the consumer had demonstrably been carrying.
 func (sb *subT) beforeTail(codec string) {
 	switch {
-	case sb.ts != nil || sb.wts != nil:
+	case sb.wts != nil:
 		sb.hadVideo = tsHasVideoPes(sb.tsBody())
 	case sb.rt != nil:
 		sb.rt.pump()
@@ -612,13 +618,11 @@ func (sb *subT) framing(e *env) *pbt.Violation {
 		if n := sb.rc.TrailingPartial(); n > 0 {
 			return pbt.V("framing/"+sb.kind, "%s consumer: the stream ended inside a unit (%d bytes of an incomplete unit)", sb.kind, n)
 		}
-	case sb.ts != nil:
-		return judgeTs("ts", sb.ts.Body())
 	case sb.wts != nil:
 		if err, _ := sb.wts.state(); err != nil {
-			return pbt.V("framing/wsts", "websocket HTTP-TS consumer: %v", err)
+			return pbt.V("framing/"+sb.kind, "%s consumer: %v", sb.kind, err)
 		}
-		return judgeTs("wsts", sb.wts.Body())
+		return judgeTs(sb.kind, sb.wts.Body())
 	case sb.rt != nil:
 		sb.rt.pump()
 		if sb.rt.ferr != nil {
@@ -644,19 +648,13 @@ func (sb *subT) delivered(markerPayload, markerNal []byte) *pbt.Violation {
 			}
 			return pbt.V("tail-not-delivered/"+sb.kind, "%s consumer (attached, %d records, ended=%v) never received the well-formed marker published after the hostile messages", sb.kind, len(sb.rc.Recs()), sb.rc.Ended())
 		}
-	case sb.ts != nil || sb.wts != nil:
+	case sb.wts != nil:
 		if !sb.hadVideo || markerNal == nil {
 			return nil
 		}
 		pbt.Count("tail-delivery-judged/"+sb.kind, 1)
 		pred := func(body []byte) bool { return tsHasPayload(body, markerNal) }
-		ok := false
-		if sb.ts != nil {
-			ok = sb.ts.WaitPred(pred, lalclient.DeliverTimeout)
-		} else {
-			ok = sb.wts.WaitPred(pred, lalclient.DeliverTimeout)
-		}
-		if !ok {
+		if !sb.wts.WaitPred(pred, lalclient.DeliverTimeout) {
 			return pbt.V("tail-not-delivered/"+sb.kind, "%s consumer had been receiving video, but the well-formed key frame published after the hostile messages never arrived (%d bytes received)", sb.kind, len(sb.tsBody()))
 		}
 	case sb.rt != nil:
@@ -689,8 +687,6 @@ func (sb *subT) close() {
 	switch {
 	case sb.rc != nil:
 		sb.rc.Close()
-	case sb.ts != nil:
-		sb.ts.Close()
 	case sb.wts != nil:
 		_ = sb.wts.conn.Close()
 	case sb.rt != nil:
